@@ -494,6 +494,25 @@ func (ts *TermStore) arith(op string, a, b *Term) *Term {
 	if op == "-" && ok2 && y == 0 {
 		return a
 	}
+	// (x + c1) +/- c2  ==>  x + (c1 +/- c2)      (x - c1) +/- c2  ==>  x + (-c1 +/- c2)
+	if ok2 && (op == "+" || op == "-") && a.kind == kApp && (a.op == "+" || a.op == "-") && len(a.args) == 2 {
+		if c1, ok := a.args[1].IntLit(); ok {
+			if a.op == "-" {
+				c1 = -c1
+			}
+			c2 := y
+			if op == "-" {
+				c2 = -y
+			}
+			return ts.arith("+", a.args[0], ts.Int(c1+c2))
+		}
+	}
+	if ok2 && op == "+" && y < 0 {
+		return ts.mk(kApp, "-", SInt, a, ts.Int(-y))
+	}
+	if a == b && op == "-" {
+		return ts.Int(0)
+	}
 	return ts.mk(kApp, op, SInt, a, b)
 }
 func (ts *TermStore) Add(a, b *Term) *Term { return ts.arith("+", a, b) }
@@ -605,6 +624,26 @@ func (ts *TermStore) Unit(e *Term) *Term { return ts.mk(kApp, "seq.unit", SeqOf(
 
 // Extract is s[off : off+n]
 func (ts *TermStore) Extract(s, off, n *Term) *Term {
+	if nv, ok := n.IntLit(); ok && nv == 0 {
+		return ts.EmptySeq(s.sort)
+	}
+	if ov, ok := off.IntLit(); ok && ov == 0 && n == ts.Len(s) {
+		return s
+	}
+	if s.sort != SString {
+		// explicit sequences (concatenations of units) with literal bounds are sliced concretely
+		if ov, ok1 := off.IntLit(); ok1 {
+			if nv, ok2 := n.IntLit(); ok2 {
+				if els, ok := ts.explode(s); ok && ov >= 0 && nv >= 0 && ov+nv <= int64(len(els)) {
+					r := ts.EmptySeq(s.sort)
+					for _, e := range els[ov : ov+nv] {
+						r = ts.Concat(r, ts.Unit(e))
+					}
+					return r
+				}
+			}
+		}
+	}
 	if s.sort == SString {
 		if l, ok := s.StrLit(); ok {
 			o, ok1 := off.IntLit()
@@ -629,6 +668,11 @@ func (ts *TermStore) Nth(s, i *Term) *Term {
 	if s.kind == kApp && s.op == "seq.unit" {
 		if v, ok := i.IntLit(); ok && v == 0 {
 			return s.args[0]
+		}
+	}
+	if v, ok := i.IntLit(); ok && v >= 0 {
+		if els, ok := ts.explode(s); ok && v < int64(len(els)) {
+			return els[v]
 		}
 	}
 	return ts.mk(kApp, "seq.nth", s.sort.SeqElem(), s, i)
@@ -1016,4 +1060,28 @@ func (ts *TermStore) FreeBoundVars(t *Term) []*Term {
 	}
 	walk(t, map[int]bool{}, map[int]bool{})
 	return out
+}
+
+// explode: the elements of an explicit sequence (a concatenation of seq.unit terms), if s is one.
+func (ts *TermStore) explode(s *Term) ([]*Term, bool) {
+	if s.kind != kApp {
+		return nil, false
+	}
+	switch {
+	case s.op == "seq.unit":
+		return []*Term{s.args[0]}, true
+	case strings.HasPrefix(s.op, "(as seq.empty"):
+		return []*Term{}, true
+	case s.op == "seq.++":
+		var out []*Term
+		for _, a := range s.args {
+			e, ok := ts.explode(a)
+			if !ok {
+				return nil, false
+			}
+			out = append(out, e...)
+		}
+		return out, true
+	}
+	return nil, false
 }
